@@ -15,6 +15,16 @@ Technique: bounded exhaustive enumeration against the real `pavexc` binary (no s
                     workspace-relative path as P's -- i.e. every cache-key column except the source hash is
                     equal -- but different contents).
 
+  siblings  : the CROSS-PROGRAM dimension (definitions in fam_c10_xprog.py): families of programs that differ by
+              exactly one edit (a dependency on a local crate dropped/added; same-length edits of a route path,
+              handler, constructor, error handler, module, id, version of the local crate; add/remove a route)
+              share ONE project S and one output directory per arena. The operation `switch to sibling` edits
+              sources and blueprint in place; for every ordered pair (A, B) of a family the histories
+              [gen A, gen B], [gen A, check B], [gen A, gen B, check B], [gen A, gen B, gen A], [gen A, gen B, gen B]
+              (thorough: every sequence of length <= 2 over {gen, check, checkdiag} x {A, B}) are executed and every
+              step is compared, byte by byte, with fresh(P) = the generation of P into an empty directory.
+              Violation keys `c10:xprog:<family>:<edit>:<oracle>`.
+
 The oracle is the property: per program the bytes of Cargo.toml / src/lib.rs / diagnostics are one value
 over all runs; a run on unchanged inputs modifies nothing; `--check` exits 0 exactly when a normal run
 would change nothing and never creates or modifies a file.
@@ -34,6 +44,7 @@ import threading
 import time
 
 import families as F
+import fam_c10_xprog as XP
 import lib_e2e as L
 
 FAM = "c10"
@@ -55,11 +66,15 @@ OP_DOC = {
     "rmout": "delete P's generated crate and diagnostics file, restore the pristine workspace manifest",
 }
 _W = os.environ.get("VERIF_C10_WIPE_ARENAS")  # arenas that keep a warm cargo target dir (~0.9 GB of disk each)
+# opt-in: cross-program histories with a COLD cache, [gen A, wipe, gen B] for the families whose siblings differ in their sources
+# (needs the arenas that keep a cargo target dir; ~10 s per history). Off by default: see `xwipe` in RULE / the assumptions.
+_XW = os.environ.get("VERIF_C10_XWIPE", "1") == "1"  # cold-cache cross-program histories: on (finds the recorded depver finding)
 TIERS = {
     "quick": {"seeds": list(range(4)), "threads": [1, 16], "hist_len": 2, "hist_len_nowipe": 2, "wipe_arenas": int(_W or 2), "arenas": int(_NA or 8),
-              "budget_s": None},
+              "budget_s": None, "xhist": "listed", "xbudget_s": None, "xwipe": _XW},
     "thorough": {"seeds": list(range(32)), "threads": [1, 16], "hist_len": 3, "hist_len_nowipe": 4, "wipe_arenas": int(_W or 4), "arenas": int(_NA or 12),
-                 "budget_s": float(os.environ.get("VERIF_C10_BUDGET_S", "1000"))},
+                 "budget_s": float(os.environ.get("VERIF_C10_BUDGET_S", "1000")), "xhist": "bound2",
+                 "xbudget_s": float(os.environ.get("VERIF_C10_XBUDGET_S", "420")), "xwipe": _XW},
 }
 NO_RUN_OPS = ("wipe", "rmout")  # harness actions: no pavexc process
 FILES = ("manifest", "lib", "diag", "root")
@@ -68,7 +83,7 @@ CHECKED_BY_WRITER = ("manifest", "lib", "root")  # the files `--check` compares 
 
 def plugin_sha():
     h = hashlib.sha256()
-    for p in (os.path.abspath(__file__), SHIM_SRC):
+    for p in (os.path.abspath(__file__), os.path.abspath(XP.__file__), SHIM_SRC):
         with open(p, "rb") as f:
             h.update(f.read())
     return h.hexdigest()[:16]
@@ -205,6 +220,9 @@ def copy_app(dst, extra_src=None):
 
 
 class Project:
+    ROOT_TOML = L.WS_TOML  # the workspace manifest before the first generation
+    EXPECTED = EXPECTED_WS_FILES
+
     def __init__(self, name, ws, app_dir):
         self.name = name
         self.ws = ws
@@ -245,7 +263,7 @@ class Project:
         if os.path.exists(self.diag):
             os.remove(self.diag)
         with open(self.root_manifest, "w") as f:
-            f.write(L.WS_TOML)
+            f.write(self.ROOT_TOML)
 
     def snapshot(self):
         """{file: [sha256 | None, mtime_ns | None]} for the four observed files + stray files in the workspace."""
@@ -261,14 +279,81 @@ class Project:
                 dirs[:] = [d for d in dirs if d != "target"]
             for fn in files:
                 rel = os.path.relpath(os.path.join(root, fn), self.ws)
-                if rel not in EXPECTED_WS_FILES:
+                if rel not in self.EXPECTED:
                     stray.append(rel)
         out["stray"] = sorted(stray)
         return out
 
 
+class SibProject(Project):
+    """The project of the sibling programs (cross-program dimension, fam_c10_xprog.py): one workspace and ONE output
+    directory for all of them. `set_variant` edits the sources in place; the cargo metadata handed to pavexc
+    (`--precomputed-metadata`) and the lock file of every source variant are computed once, in `create`."""
+    def __init__(self, sdir):
+        super().__init__("s", f"{sdir}/ws", f"{sdir}/app")
+        self.dir = sdir
+        self.meta = f"{sdir}/meta"
+        self.variant = None
+
+    def write_sources(self, v):
+        changed = False
+        for rel, text in XP.sources(v, L.REPO).items():
+            changed |= write_if_changed(f"{self.dir}/{rel}", text)
+        return changed
+
+    def create(self):
+        holder = L.HOLDER_TOML.replace(f'verif_app = {{ path = "{L.APP}" }}', f'verif_app = {{ path = "{self.app}" }}')
+        if self.app not in holder:
+            raise L.MachineryError("lib_e2e.HOLDER_TOML no longer has the expected verif_app line")
+        write_if_changed(f"{self.ws}/holder/Cargo.toml", holder)
+        lines = ["//! Blueprint holder: gives every (line, column) location used by bpgen a real source line."]
+        lines += [f"// line {i}: registration site" for i in range(2, 1500)]
+        write_if_changed(f"{self.ws}/holder/src/lib.rs", "\n".join(lines) + "\n")
+        self.reset_outputs()
+        stamp = hashlib.sha256((XP.sources_digest(L.REPO) + holder + self.ROOT_TOML + L.sha256_file(f"{L.REPO}/Cargo.lock")).encode()).hexdigest()
+        os.makedirs(self.meta, exist_ok=True)
+        ok = os.path.exists(f"{self.meta}/stamp") and open(f"{self.meta}/stamp").read() == stamp and all(
+            os.path.exists(f"{self.meta}/{v}.{ext}") for v in XP.VARIANTS for ext in ("json", "lock"))
+        if not ok:
+            for v in XP.VARIANTS:
+                self.write_sources(v)
+                shutil.copy(f"{L.REPO}/Cargo.lock", f"{self.ws}/Cargo.lock")  # cargo prunes it and adds the local crates
+                r = L.run(["cargo", "metadata", "--offline", "--format-version", "1"], cwd=self.ws, env=cargo_env())
+                meta = [l for l in r.stdout.splitlines() if l.startswith("{")]
+                if r.returncode != 0 or not meta:
+                    sys.stderr.write(r.stdout[-3000:])
+                    raise L.MachineryError(f"cargo metadata failed for the sibling workspace (source variant {v})")
+                with open(f"{self.meta}/{v}.json", "w") as f:
+                    f.write(meta[-1])
+                shutil.copyfile(f"{self.ws}/Cargo.lock", f"{self.meta}/{v}.lock")
+            with open(f"{self.meta}/stamp", "w") as f:
+                f.write(stamp)
+        self.variant = None
+        self.set_variant("base")
+
+    def set_variant(self, v):
+        """`edit the sources`: rewrite the files that differ, hand pavexc the matching cargo metadata."""
+        if self.variant == v:
+            return
+        self.write_sources(v)
+        shutil.copyfile(f"{self.meta}/{v}.json", f"{self.ws}/metadata.json")
+        shutil.copyfile(f"{self.meta}/{v}.lock", f"{self.ws}/Cargo.lock")
+        self.variant = v
+
+    def read_files(self):
+        out = {}
+        for k, p in self.files().items():
+            try:
+                with open(p, "rb") as f:
+                    out[k] = f.read()
+            except OSError:
+                out[k] = None
+        return out
+
+
 class Arena:
-    """arena<k>/home           HOME ($HOME/.pavex/rustdoc/cache/*.db); exists only while a run lasts
+    """arena<k>/s              the project of the sibling programs (SibProject): s/app, s/dep, s/ws (cross-program histories)
+       arena<k>/home           HOME ($HOME/.pavex/rustdoc/cache/*.db); exists only while a run lasts
        arena<k>/p/app          P's and Q's component crate `verif_app 0.1.0`
        arena<k>/p/ws, p/wsq    workspaces of P and Q (both see the crate as `../app`)
        arena<k>/x/app          X's component crate: also `verif_app 0.1.0`, one extra annotated component
@@ -286,6 +371,7 @@ class Arena:
         self.p = Project("p", f"{self.dir}/p/ws", f"{self.dir}/p/app")
         self.q = Project("q", f"{self.dir}/p/wsq", f"{self.dir}/p/app")
         self.x = Project("x", f"{self.dir}/x/ws", f"{self.dir}/x/app")
+        self.s = SibProject(f"{self.dir}/s")
         self.count_file = f"{self.dir}/shim_count"
         self.target = f"{self.dir}/target"
         self.doc_owner = None  # app dir whose docs are in target/doc/verif_app.json, when known
@@ -295,11 +381,11 @@ class Arena:
         copy_app(self.p.app)
         copy_app(self.x.app, X_EXTRA_SRC)
         write_if_changed(f"{self.dir}/.cargo/config.toml", '[build]\ntarget-dir = "target"\n')
-        for pr in (self.p, self.q, self.x):
+        for pr in (self.p, self.q, self.x, self.s):
             pr.create()
 
     def project(self, name):
-        return {"p": self.p, "q": self.q, "x": self.x}[name]
+        return {"p": self.p, "q": self.q, "x": self.x, "s": self.s}[name]
 
     def has_target(self):
         return os.path.isdir(f"{self.target}/debug/deps")
@@ -341,7 +427,7 @@ class Arena:
             shutil.copytree(f"{snap_home}/.pavex", f"{self.home}/.pavex")
 
     def reset_projects(self):
-        for pr in (self.p, self.q, self.x):
+        for pr in (self.p, self.q, self.x, self.s):
             pr.reset_outputs()
 
 
@@ -640,12 +726,160 @@ def set_bp(proj, pid):
 
 
 # --------------------------------------------------------------------------------------------------
+# cross-program dimension: sibling programs (definitions in fam_c10_xprog.py)
+# --------------------------------------------------------------------------------------------------
+XROOT = f"{ROOT}/xprog"
+BLOCK = 8192  # the block size of persist_if_changed's comparison: placements are measured against it
+REPLAY_STUB_SPEC = {"id": "c10_xprog_stub", "family": FAM, "bp": {"ops": [{"k": "route", "c": "RT_ROOT_GET"}]}, "requests": []}
+
+
+def is_xprog(pid):
+    return pid.startswith("x_")
+
+
+def write_xbps(progs):
+    """RON of sibling programs (catalog of the small component crate)."""
+    os.makedirs(XROOT, exist_ok=True)
+    with open(f"{XROOT}/catalog.json", "w") as f:
+        json.dump(XP.catalog(), f)
+    with open(f"{XROOT}/specs.jsonl", "w") as f:
+        for pr in progs:
+            f.write(json.dumps({"id": pr["id"], "bp": pr["bp"]}) + "\n")
+    r = L.run([L.BPGEN, f"{XROOT}/catalog.json", f"{XROOT}/specs.jsonl", f"{XROOT}/bps"])
+    if r.returncode != 0:
+        sys.stderr.write(r.stdout[-4000:])
+        raise L.MachineryError("bpgen failed on the C10 sibling programs")
+
+
+def switch_to(proj, prog):
+    """The history operation `switch to a sibling program`: edit sources and blueprint, leave the outputs alone."""
+    proj.set_variant(prog["src"])
+    shutil.copyfile(f"{XROOT}/bps/{prog['id']}.ron", proj.bp)
+
+
+def fresh_bytes(pid):
+    out = {}
+    for f in FILES:
+        try:
+            with open(f"{XROOT}/fresh/{pid}/{f}", "rb") as fh:
+                out[f] = fh.read()
+        except OSError:
+            out[f] = None
+    return out
+
+
+def first_last_diff(a, b):
+    """(first, last) differing byte offsets of two byte strings (None when equal); a missing file differs at 0."""
+    if a == b:
+        return None
+    if a is None or b is None:
+        return (0, max(len(a or b"") - 1, 0))
+    n = min(len(a), len(b))
+    first = next((i for i in range(n) if a[i] != b[i]), n)
+    if len(a) != len(b):
+        return (first, max(len(a), len(b)) - 1)
+    last = next(i for i in range(n - 1, -1, -1) if a[i] != b[i])
+    return (first, last)
+
+
+def diff_against_fresh(proj, pid):
+    """{file: {offset, last, got_len, want_len}} for the observed files that differ from a fresh generation of pid."""
+    want, got, out = fresh_bytes(pid), proj.read_files(), {}
+    for f in FILES:
+        d = first_last_diff(got[f], want[f])
+        if d:
+            out[f] = {"offset": d[0], "last": d[1], "got_len": None if got[f] is None else len(got[f]),
+                      "want_len": None if want[f] is None else len(want[f])}
+    return out
+
+
+def xprog_baseline(a0, seed, progs):
+    """fresh(P) for every sibling program: generated into an EMPTY output directory in arena 0 (with a cargo target
+    dir: new source variants are documented here and end up in the warm-cache snapshot). Bytes are kept under
+    XROOT/fresh/<program>/ (equal in every arena: all paths in the outputs are relative). -> {pid: {file: sha}}"""
+    canon = {}
+    proj = a0.s
+    for pr in sorted(progs, key=lambda q: (q["src"], q["id"])):
+        switch_to(proj, pr)
+        proj.reset_outputs()
+        o = run_pavexc(a0, proj, seed, 1)
+        if o["exit"] != 0:
+            sys.stderr.write(ANSI.sub("", o["stderr"])[-3000:])
+            raise L.MachineryError(f"C10 sibling program {pr['id']} is not accepted by pavexc (exit {o['exit']})")
+        snap = proj.snapshot()
+        if snap["stray"]:
+            raise L.MachineryError(f"C10 sibling program {pr['id']}: a fresh generation leaves unexpected files {snap['stray']}")
+        canon[pr["id"]] = {f: snap[f][0] for f in FILES}
+        d = f"{XROOT}/fresh/{pr['id']}"
+        shutil.rmtree(d, ignore_errors=True)
+        os.makedirs(d)
+        for f, data in proj.read_files().items():
+            if data is None:
+                raise L.MachineryError(f"C10 sibling program {pr['id']}: a fresh generation did not write {f}")
+            with open(f"{d}/{f}", "wb") as fh:
+                fh.write(data)
+    proj.reset_outputs()
+    return canon
+
+
+def xprog_measure(tier):
+    """Sizes of the fresh outputs of every sibling and, per unordered pair, where they differ; the placements a family
+    was designed for (fam_c10_xprog `expect`) are demanded here, so that the evidence never claims a tail-block /
+    early-block / sub-block case that the generated code no longer provides."""
+    out = {}
+    for fam in XP.families(tier):
+        sibs = [s["name"] for s in fam["siblings"]]
+        sizes = {n: {f: len(fresh_bytes(XP.program_id(fam["name"], n))[f]) for f in FILES} for n in sibs}
+        pairs = {}
+        for a, b in itertools.combinations(sibs, 2):
+            fa, fb = fresh_bytes(XP.program_id(fam["name"], a)), fresh_bytes(XP.program_id(fam["name"], b))
+            row = {}
+            for f in FILES:
+                d = first_last_diff(fa[f], fb[f])
+                if d is None:
+                    row[f] = "identical"
+                    continue
+                same_size = len(fa[f]) == len(fb[f])
+                n = len(fa[f])
+                row[f] = {"same_size": same_size, "first_diff": d[0], "last_diff": d[1]}
+                if same_size:
+                    tail_start = (n // BLOCK) * BLOCK
+                    row[f]["tail_block_starts_at"] = tail_start
+                    row[f]["placement"] = ("sub-block-file" if n < BLOCK else "confined-to-last-partial-block" if d[0] >= tail_start
+                                           else "in-a-full-block" if d[1] < tail_start else "full-and-partial-blocks")
+            pairs[f"{a}|{b}"] = row
+            ex = fam["expect"]
+            bad = []
+            for f in ex.get("same_size", []):
+                if not (isinstance(row[f], dict) and row[f]["same_size"]):
+                    bad.append(f"{f} should differ at equal size, measured {row[f]}")
+            for f in ex.get("same", []):
+                if row[f] != "identical":
+                    bad.append(f"{f} should be identical, measured {row[f]}")
+            for f in ex.get("differ", []):
+                if row[f] == "identical":
+                    bad.append(f"{f} should differ")
+            want = ex.get("lib")
+            if want and isinstance(row["lib"], dict):
+                got = row["lib"].get("placement")
+                need = {"small": "sub-block-file", "big-early": "in-a-full-block", "big-tail": "confined-to-last-partial-block"}[want]
+                if got != need:
+                    bad.append(f"lib.rs difference should be `{need}`, measured `{got}` (sizes {sizes[a]['lib']}, first diff {row['lib']['first_diff']})")
+            if bad:
+                raise L.MachineryError(f"C10 sibling family {fam['name']} ({a}|{b}) lost its designed placement: {'; '.join(bad)}")
+        out[fam["name"]] = {"doc": fam["doc"], "sizes": sizes, "pairs": pairs}
+    return out
+
+
+# --------------------------------------------------------------------------------------------------
 # preparation: arenas, canonical outputs, warm-cache snapshot, ownership self-test
 # --------------------------------------------------------------------------------------------------
 def prepare(tier):
     ensure_shim()
     os.makedirs(ROOT, exist_ok=True)
     write_bps()
+    shutil.rmtree(f"{XROOT}/bps", ignore_errors=True)
+    write_xbps(list(XP.programs("thorough").values()))
     arenas = [Arena(k) for k in range(TIERS[tier]["arenas"])]
     t0 = time.time()
     with cf.ThreadPoolExecutor(max_workers=8) as ex:
@@ -715,6 +949,12 @@ def baseline(arenas, tier):
     libs = collections.Counter(canon[s["id"]]["lib"] for s in specs)
     if len(libs) != len(specs):
         raise L.MachineryError("two C10 programs have the same lib.rs: the edit-then-check operation would be vacuous")
+    # sibling programs (cross-program dimension): fresh outputs + their source variants' docs into the snapshot
+    t1 = time.time()
+    xprogs = XP.programs("thorough" if not valid else tier)
+    canon.update(xprog_baseline(a0, cfg["seeds"][0], list(xprogs.values())))
+    notes["xprog_measure"] = xprog_measure(tier)
+    notes["xprog_baseline_wall_s"] = round(time.time() - t1, 1)
     shutil.rmtree(SNAP, ignore_errors=True)
     os.makedirs(SNAP)
     shutil.copytree(f"{a0.home}/.pavex", f"{SNAP}/.pavex")
@@ -806,7 +1046,113 @@ def sweep_case(spec, seed, threads):
             "q": spec["id"], "plan": [[seed, threads]]}
 
 
+# cross-program histories: every step is (operation, sibling); a step whose sibling differs from the one the project
+# currently holds first performs `switch to that sibling` (sources + blueprint edited, outputs untouched)
+XOPS = ["gen", "check", "checkdiag", "rmout"]
+XOP_DOC = {
+    "gen:S": "switch to sibling S if it is not the current program (edit sources/blueprint in place), then pavexc generate --diagnostics "
+             "into the SAME output directory",
+    "check:S": "switch to S if needed, then pavexc generate --check",
+    "checkdiag:S": "switch to S if needed, then pavexc generate --check --diagnostics <file>",
+    "rmout:S": "delete the generated crate and the diagnostics file, restore the pristine workspace manifest (thorough tier only)",
+}
+# the histories named by the task, after the initial `gen A` into an empty directory
+XHIST_LISTED = [
+    [["gen", "B"]],
+    [["checkdiag", "B"]],
+    [["check", "B"]],
+    [["gen", "B"], ["checkdiag", "B"]],
+    [["gen", "B"], ["gen", "A"]],
+    [["gen", "B"], ["gen", "B"]],
+]
+
+
+def xhistories(mode):
+    """listed: XHIST_LISTED. bound2: those first, then every other sequence of length <= 2 over {gen, check, checkdiag} x {A, B}
+    plus `rmout` in the middle, that contains at least one step on B (the others are single-program histories, which
+    the main enumeration covers)."""
+    out = [list(map(list, h)) for h in XHIST_LISTED]
+    if mode == "bound2":
+        run_ops = [[o, w] for o in ("gen", "check", "checkdiag") for w in "AB"]
+        rest = [[x] for x in run_ops] + [[x, y] for x in run_ops + [["rmout", "A"]] for y in run_ops]
+        for h in rest:
+            if any(w == "B" for _o, w in h) and h not in out:
+                out.append(h)
+    return out
+
+
+def xprog_cases(tier, cfg, h0=0):
+    cases = []
+    progs = XP.programs(tier)
+    h = h0
+    hists = xhistories(cfg["xhist"])
+    # listed histories of every pair first (a budget cut then hits the longer tail of the enumeration evenly)
+    for rank, hist in enumerate(hists):
+        for fam in XP.families(tier):
+            names = [s["name"] for s in fam["siblings"]]
+            for a, b in itertools.permutations(names, 2):
+                pa, pb = progs[XP.program_id(fam["name"], a)], progs[XP.program_id(fam["name"], b)]
+                cases.append({"kind": "xprog", "cid": f"x{h}", "family": fam["name"], "edit": fam["edits"][f"{a}>{b}"],
+                              "a": pa, "b": pb, "hist": hist, "ops": [f"{o}:{w}" for o, w in hist], "prog": pa["id"], "p2": pb["id"],
+                              "q": pb["id"], "plan": [step_plan(cfg, h, j) for j in range(len(hist) + 1)], "rank": rank})
+                h += 1
+    if cfg.get("xwipe"):
+        hist = [["wipe", "A"], ["gen", "B"]]
+        for fam in XP.families(tier):
+            for a, b in itertools.permutations(fam["siblings"], 2):
+                if a["src"] == b["src"]:
+                    continue  # same sources: the cold-cache generation of B is a single-program history
+                pa, pb = progs[XP.program_id(fam["name"], a["name"])], progs[XP.program_id(fam["name"], b["name"])]
+                cases.append({"kind": "xprog", "cid": f"x{h}", "family": fam["name"], "edit": fam["edits"][f"{a['name']}>{b['name']}"],
+                              "a": pa, "b": pb, "hist": hist, "ops": [f"{o}:{w}" for o, w in hist], "prog": pa["id"], "p2": pb["id"],
+                              "q": pb["id"], "plan": [step_plan(cfg, h, j) for j in range(len(hist) + 1)], "rank": len(hists)})
+                h += 1
+    return cases
+
+
+def has_wipe(case):
+    return any(o.split(":")[0] == "wipe" for o in case["ops"])
+
+
+def execute_xcase(arena, case, restore=True):
+    if restore:
+        arena.restore_cache(SNAP)
+    arena.reset_projects()
+    proj = arena.s
+    progs = {"A": case["a"], "B": case["b"]}
+    cur = None
+    steps = []
+    for j, (op, who) in enumerate([["gen", "A"]] + case["hist"]):
+        label = "init" if j == 0 else op
+        if op == "rmout":
+            proj.reset_outputs()
+            steps.append({"op": "rmout"})
+            continue
+        if op == "wipe":
+            arena.wipe_cache()
+            steps.append({"op": "wipe"})
+            continue
+        switched = cur is not None and who != cur
+        if who != cur:
+            switch_to(proj, progs[who])
+            cur = who
+        pid = progs[who]["id"]
+        seed, thr = case["plan"][j]
+        before = proj.snapshot()
+        stale = diff_against_fresh(proj, pid)
+        o = run_pavexc(arena, proj, seed, thr, check=op in ("check", "checkdiag"), diagnostics=op != "check")
+        st = {"op": label, "proj": "s", "who": who, "bp": pid, "switched": switched, "seed": seed, "threads": thr, "exit": o["exit"],
+              "timed_out": o["timed_out"], "wall_s": o["wall_s"], "shim_calls": o["shim_calls"], "n_documented": o["n_documented"],
+              "before": before, "after": proj.snapshot(), "diff_before": stale, "diff_after": diff_against_fresh(proj, pid)}
+        if o["exit"] != 0:
+            st["stderr"] = ANSI.sub("", o["stderr"])[-1500:]
+        steps.append(st)
+    return {"case": case, "arena": arena.k, "steps": steps}
+
+
 def execute_case(arena, case, restore=True):
+    if case["kind"] == "xprog":
+        return execute_xcase(arena, case, restore)
     if restore:
         arena.restore_cache(SNAP)
     arena.reset_projects()
@@ -860,8 +1206,8 @@ def run_cases(arenas, cases, n_wipe_arenas, deadline=None):
     """Execute cases on the arenas (one worker thread per arena). Histories containing `wipe` only run on the
     arenas that have warm cargo target dirs. Returns (records, n_not_run)."""
     import collections as C
-    wipe_q = C.deque(c for c in cases if "wipe" in c["ops"])
-    plain_q = C.deque(c for c in cases if "wipe" not in c["ops"])
+    wipe_q = C.deque(c for c in cases if has_wipe(c))
+    plain_q = C.deque(c for c in cases if not has_wipe(c))
     lock = threading.Lock()
     records = []
 
@@ -941,8 +1287,23 @@ def _observe(tier, cfg):
     records += recs
     batches.append({"batch": "seed-sweep", "cases": len(sweep), "completed": len(recs), "wall_s": round(time.time() - t0, 1)})
     L.log(f"c10: seed sweep {len(recs)} runs in {time.time() - t0:.1f}s")
+    # cross-program histories (sibling programs sharing one output directory)
+    t0 = time.time()
+    xcases = xprog_cases(tier, cfg, rot)
+    recs, left = run_cases(arenas, xcases, cfg["wipe_arenas"], t0 + cfg["xbudget_s"] if cfg["xbudget_s"] else None)
+    records += recs
+    by_rank = collections.Counter(c["rank"] for c in xcases)
+    done_rank = collections.Counter(r["case"]["rank"] for r in recs)
+    batches.append({"batch": "xprog", "cases": len(xcases), "completed": len(recs), "not_run": left, "wall_s": round(time.time() - t0, 1),
+                    "mode": cfg["xhist"], "budget_s": cfg["xbudget_s"], "histories_per_ordered_pair": len(xhistories(cfg["xhist"])),
+                    "cold_cache_histories": sum(1 for c in xcases if has_wipe(c)), "cold_cache_histories_enabled": bool(cfg.get("xwipe")),
+                    "ordered_pairs": by_rank[0], "histories_completed_for_every_pair": sum(1 for r in by_rank if done_rank[r] == by_rank[r]),
+                    "history_shapes": [["gen:A"] + [f"{o}:{w}" for o, w in hh] for hh in xhistories(cfg["xhist"])]})
+    L.log(f"c10: cross-program histories {len(recs)}/{len(xcases)} in {time.time() - t0:.1f}s")
     # histories, by increasing length
     deadline = t_start + cfg["budget_s"] if cfg["budget_s"] else None
+    if deadline is not None and cfg["xbudget_s"]:
+        deadline += time.time() - t0  # the cross-program batch has its own budget
     h = 0
     for n in range(1, cfg["hist_len_nowipe"] + 1):
         alphabet = OPS if n <= cfg["hist_len"] else [o for o in OPS if o != "wipe"]
@@ -981,8 +1342,104 @@ def describe(case, j, st):
             f"`{st['op']}` (blueprint {st.get('bp')}, seed {st.get('seed')}, {st.get('threads')} rayon threads)")
 
 
+def xkey(case, oracle):
+    return f"c10:xprog:{case['family']}:{case['edit']}:{oracle}"
+
+
+def fmt_diff(d):
+    """`first differing file and byte offset` of a {file: {offset, last, got_len, want_len}} map."""
+    if not d:
+        return "no difference"
+    names = {"manifest": "sdk/Cargo.toml", "lib": "sdk/src/lib.rs", "diag": "diag.dot", "root": "Cargo.toml (workspace)"}
+    parts = []
+    for f in FILES:
+        if f in d:
+            x = d[f]
+            blk = ""
+            if x["got_len"] is not None and x["got_len"] == x["want_len"]:
+                tail = (x["got_len"] // BLOCK) * BLOCK
+                blk = (", same size: all differences inside the last partial 8 KiB block" if x["offset"] >= tail and x["got_len"] >= BLOCK
+                       else ", same size, file shorter than one 8 KiB block" if x["got_len"] < BLOCK else ", same size")
+            parts.append(f"{names[f]} first differs at byte {x['offset']} (last at {x['last']}; on disk {x['got_len']} bytes, fresh {x['want_len']} bytes{blk})")
+    return "; ".join(parts)
+
+
+def evaluate_x(rec, canon, hist):
+    """The oracle of the cross-program histories. fresh(P) = canon[P] (digests) / XROOT/fresh/P (bytes)."""
+    problems = []
+    case = rec["case"]
+    shape = ["gen:A"] + case["ops"]
+    for j, st in enumerate(rec["steps"]):
+        op = st["op"]
+        if op in ("rmout", "wipe"):
+            hist[f"x:{op}:done"] += 1
+            continue
+        cold = any(s2["op"] == "wipe" for s2 in rec["steps"][:j])
+        where = (f"xprog {case['cid']}: family {case['family']}, edit {case['edit']} (A={case['a']['id']}, B={case['b']['id']}), history "
+                 f"[{', '.join(shape)}], step {j} `{shape[j]}` (seed {st['seed']}, {st['threads']} rayon threads)")
+        if st.get("timed_out"):
+            problems.append((xkey(case, "pavexc-timeout"), f"{where}: no exit within {RUN_TIMEOUT_S}s", j))
+            continue
+        b, a = st["before"], st["after"]
+        want = canon[st["bp"]]
+        new_stray = [p for p in a.get("stray", []) if p not in b.get("stray", [])]
+        if new_stray:
+            problems.append((xkey(case, "stray-file-created"), f"{where}: created {new_stray}", j))
+        if op in ("init", "gen"):
+            if st["exit"] != 0:
+                hist[f"x:{op}:exit{st['exit']}"] += 1
+                problems.append((xkey(case, "generate-fails-with-cold-cache" if cold else "generate-fails"),
+                                 f"{where}: exit {st['exit']} on an accepted program{' (after the rustdoc cache was deleted; the same step succeeds with a warm cache)' if cold else ''}: "
+                                 f"{st.get('stderr', '')[-600:]}", j))
+                continue
+            wrong = [f for f in FILES if a[f][0] != want[f]]
+            up_to_date = all(b[f][0] == want[f] for f in FILES)
+            if j == 0:
+                oracle, what = "fresh-run-differs", "a generation into an empty directory differs from the first fresh generation of the same program"
+            elif up_to_date:
+                oracle, what = "noop-regenerate-changes-bytes", "the directory already held exactly fresh(program), the run changed its bytes"
+            elif st["who"] == "A":
+                oracle, what = "round-trip-equals-fresh", "after generating A, B and A again into one directory it must equal a fresh generation of A"
+            else:
+                oracle, what = "switch-equals-fresh", ("after `gen` of a sibling into the directory left by the previous program it must be "
+                                                       "byte-identical to a fresh generation into an empty directory")
+            if wrong:
+                problems.append((xkey(case, oracle), f"{where}: {what}; {fmt_diff(st['diff_after'])} [before the run: {fmt_diff(st['diff_before'])}]", j))
+            if up_to_date and j > 0:
+                touched = [f for f in FILES if a[f] != b[f]]
+                hist[f"x:gen:inputs-unchanged:{'modified-' + '+'.join(touched) if touched else 'no-file-touched'}"] += 1
+                if touched and not wrong:
+                    problems.append((xkey(case, "noop-regenerate-touches-files"), f"{where}: the directory already held exactly fresh(program), "
+                                     f"yet {touched} were rewritten: {[(f, b[f], a[f]) for f in touched]}", j))
+            elif j > 0:
+                rewritten = [f for f in FILES if a[f][0] != b[f][0]]
+                hist[f"x:gen:{'switched' if st['switched'] else 'same-program'}:rewrote-{'+'.join(rewritten) or 'nothing'}:{'equals-fresh' if not wrong else 'DIFFERS'}"] += 1
+            else:
+                hist[f"x:init:{'equals-fresh' if not wrong else 'DIFFERS'}"] += 1
+        else:  # check, checkdiag
+            stale = [f for f in CHECKED_BY_WRITER if b[f][0] != want[f]]
+            if op == "checkdiag" and b["diag"][0] != want["diag"]:
+                stale.append("diag")
+            modified = [f for f in FILES if a[f] != b[f]]
+            expected = 1 if stale else 0
+            hist[f"x:{op}:{'switched' if st['switched'] else 'same-program'}:expected-exit{expected}:got-exit{st['exit']}"
+                 + (f":modified-{'+'.join(modified)}" if modified else "")] += 1
+            if modified:
+                problems.append((xkey(case, "check-writes"), f"{where}: `--check` changed {modified}: {[(f, b[f], a[f]) for f in modified]}", j))
+            if st["exit"] not in (0, 1):
+                problems.append((xkey(case, f"check-exit-status-{st['exit']}"), f"{where}: exit {st['exit']}: {st.get('stderr', '')[-400:]}", j))
+            elif st["exit"] != expected:
+                relevant = {f: v for f, v in st["diff_before"].items() if f in stale}
+                problems.append((xkey(case, f"check-exit-expected{expected}-got{st['exit']}"),
+                                 f"{where}: the directory {'differs from' if stale else 'equals'} a fresh generation of the program being checked "
+                                 f"({fmt_diff(relevant)}), `--check` exited {st['exit']}", j))
+    return problems
+
+
 def evaluate(rec, canon, hist=None):
     """-> [(key, what, step index)] for one executed case; `hist` (Counter) receives the outcome histogram."""
+    if rec["case"]["kind"] == "xprog":
+        return evaluate_x(rec, canon, hist if hist is not None else collections.Counter())
     problems = []
     case = rec["case"]
     phase = "seed-sweep" if case["kind"] == "sweep" else "history"
@@ -1063,11 +1520,30 @@ def evaluate(rec, canon, hist=None):
 
 def context_key(case, j):
     st_seed, st_thr = case["plan"][min(j, len(case["plan"]) - 1)]
-    return (case["prog"], st_seed, st_thr, tuple(case["ops"][:j]))
+    prog = (case["prog"], case["p2"]) if case["kind"] == "xprog" else case["prog"]
+    return (prog, st_seed, st_thr, tuple(case["ops"][:j]))
 
 
 def is_divergence(key):
+    if key.startswith("c10:xprog:"):
+        return key.endswith(":fresh-run-differs") or key.endswith(":generate-fails")
     return key.startswith("output-differs") or key.startswith("generate-fails")
+
+
+def program_spec(pid):
+    """The `spec` of a replay file: something orchestrator.observe_specs can push through the standard pipeline (the
+    sibling programs live in their own component crate, so their replay files carry a stub and the programs
+    themselves inside `c10_case`)."""
+    return REPLAY_STUB_SPEC if is_xprog(pid) else all_programs()[pid]
+
+
+def base_case(case, seed):
+    """The shortest case about the same program: one generation into an empty directory."""
+    if case["kind"] == "xprog":
+        c = dict(case)
+        c.update({"cid": case["cid"] + ":base", "hist": [], "ops": [], "plan": [[seed, 1]]})
+        return c
+    return sweep_case(all_programs()[case["prog"]], seed, 1)
 
 
 def confirm(case, key, canon, arenas):
@@ -1088,7 +1564,7 @@ def confirm(case, key, canon, arenas):
         rec = execute_case(a0, case, restore=True)
         if any(is_divergence(k) for k, _w, _j in evaluate(rec, canon)):
             return {"reproduced": True, "attempts": t + 1, "by": "the failing case deviates again from the canonical digests"}
-    base = sweep_case(all_programs()[case["prog"]], case["plan"][0][0] if case["kind"] == "sweep" else TIERS["quick"]["seeds"][0], 1)
+    base = base_case(case, case["plan"][0][0] if case["kind"] == "sweep" else TIERS["quick"]["seeds"][0])
     for t in range(4):
         rec = execute_case(a0, base, restore=True)
         if any(is_divergence(k) for k, _w, _j in evaluate(rec, canon)):
@@ -1114,7 +1590,24 @@ RULE = (
     "run; a generation whose outputs were all up to date changes no sha and no mtime_ns; `--check` exits 0 iff manifest, "
     "lib.rs and workspace manifest equal what a normal run would write and changes no file; generating Q or X leaves P "
     "alone. non-trivial = a pavexc run compared against digests obtained from a different process; distinct = distinct "
-    "(program, seed, threads, history prefix).")
+    "(program, seed, threads, history prefix). "
+    "CROSS-PROGRAM DIMENSION: sibling programs (fam_c10_xprog.py) share one project and ONE output directory; a family is a set "
+    "of siblings differing by exactly one edit (drop/add of a dependency on a local crate; same-length edits: route prefix "
+    "/ping<->/pong, route path in the source, handler / constructor / error handler swapped for a same-length name, function, "
+    "module and id renamed in the source, version of the local crate 0.1.0<->0.2.0; different-length controls: add/remove a "
+    "route). The operation `switch to sibling S` edits sources and blueprint in place and leaves the outputs alone. For every "
+    "ordered pair (A, B) of every family, after `gen A` into an empty directory: quick = the histories [gen B], [checkdiag B], "
+    "[check B], [gen B, checkdiag B], [gen B, gen A], [gen B, gen B]; thorough = every sequence of length <= 2 over {gen, check, "
+    "checkdiag} x {A, B} (+ delete-outputs in the middle) that contains a step on B, within a time budget (reported). fresh(P) = "
+    "the bytes of a generation of P into an empty directory (arena 0, seed 0, one thread). Oracle: after every `gen P` the four "
+    "observed files (generated Cargo.toml, src/lib.rs, diagnostics file, workspace manifest) are byte-identical to fresh(P) and "
+    "nothing else exists in the workspace; `gen P` on a directory equal to fresh(P) touches no mtime; `--check` for P exits 0 iff "
+    "the files it covers equal fresh(P), 1 otherwise, and changes no byte and no mtime. Sizes of all fresh outputs and the "
+    "first/last differing byte offset of every sibling pair are measured (coverage.xprog.measure) and the designed placements "
+    "(lib.rs < 8 KiB; > 8 KiB with the difference inside the last partial 8 KiB block; > 8 KiB with the difference in a full "
+    "block; generated Cargo.toml and diagnostics of equal size) are demanded from the measurement. The cross-program histories run "
+    "with the warm cache (every source variant was documented by the baseline); VERIF_C10_XWIPE=1 adds [gen A, wipe, gen B] for the "
+    "families whose siblings differ in their sources.")
 
 
 def oracle_c10(obs, rep, tier):
@@ -1142,7 +1635,7 @@ def oracle_c10(obs, rep, tier):
     cases = set()
     for rec in o["records"]:
         case = rec["case"]
-        cases.add((case["prog"], tuple(case["ops"]), tuple(map(tuple, case["plan"]))))
+        cases.add((case["prog"], case["p2"] if case["kind"] == "xprog" else None, tuple(case["ops"]), tuple(map(tuple, case["plan"]))))
         for j, st in enumerate(rec["steps"]):
             if "exit" not in st:
                 continue
@@ -1189,7 +1682,7 @@ def oracle_c10(obs, rep, tier):
                             rep.violation(f"output-differs:{f}:repeated-baseline",
                                           f"program {p}: two fresh generations with seed {cfg['seeds'][0]}, one rayon thread and a "
                                           f"warm cache gave {f} digests {canon[p][f]} and {canon2[p][f]}",
-                                          {"oracle": "C10", "spec": all_programs()[p], "c10_case": None, "first": canon[p], "second": canon2[p]})
+                                          {"oracle": "C10", "spec": program_spec(p), "c10_case": None, "first": canon[p], "second": canon2[p]})
             st = rec["steps"][j]
             conf = None
             if key.startswith("output-differs:") and key.split(":")[1] in FILES:
@@ -1218,7 +1711,7 @@ def oracle_c10(obs, rep, tier):
                                                                               f"case diverges under key {sibling}"}
             if is_divergence(key):
                 confirmed_divergences[key] = st.get("bp")
-        rep.violation(key, what, {"oracle": "C10", "spec": all_programs()[rec["case"]["prog"]], "c10_case": rec["case"],
+        rep.violation(key, what, {"oracle": "C10", "spec": program_spec(rec["case"]["prog"]), "c10_case": rec["case"],
                                   "failing_step": j, "steps": rec["steps"], "canonical_digests": {p: canon[p] for p in
                                                                                                  {rec["case"]["prog"], rec["case"]["p2"], rec["case"]["q"], X_PROGRAM_ID}},
                                   "confirmation": conf})
@@ -1238,8 +1731,31 @@ def oracle_c10(obs, rep, tier):
     sw = next((r for r in o["records"] if r["case"]["kind"] == "sweep"), None)
     if sw:
         samples.append({"case": sw["case"], "after": sw["steps"][0]["after"]})
+    xrecs = [r for r in o["records"] if r["case"]["kind"] == "xprog"]
+    xb = next((b for b in batches if b["batch"] == "xprog"), {})
+    if xrecs:
+        r0 = max(xrecs, key=lambda r: (len(r["case"]["hist"]), r["case"]["family"] == "dep"))
+        samples.append({"case": {k: r0["case"][k] for k in ("kind", "cid", "family", "edit", "a", "b", "hist", "plan")},
+                        "steps": [{k: v for k, v in st.items() if k in ("op", "who", "bp", "switched", "seed", "threads", "exit", "diff_before", "diff_after")}
+                                  for st in r0["steps"]]})
+    xfam = collections.defaultdict(lambda: collections.Counter())
+    for r in xrecs:
+        xfam[r["case"]["family"]][r["case"]["edit"]] += 1
+    xprog_cov = {
+        "families": {f: dict(c) for f, c in xfam.items()}, "ordered_pairs": xb.get("ordered_pairs"),
+        "history_shapes": xb.get("history_shapes"), "histories_per_ordered_pair": xb.get("histories_per_ordered_pair"),
+        "histories_planned": xb.get("cases"), "histories_executed": len(xrecs), "histories_not_run": xb.get("not_run"),
+        "history_shapes_completed_for_every_pair": xb.get("histories_completed_for_every_pair"), "budget_s": xb.get("budget_s"),
+        "cold_cache_histories": xb.get("cold_cache_histories"), "cold_cache_histories_enabled": xb.get("cold_cache_histories_enabled"),
+        "exhaustive_within_bound": xb.get("not_run") == 0, "wall_s": xb.get("wall_s"),
+        "pavexc_runs": sum(1 for r in xrecs for st in r["steps"] if "exit" in st),
+        "switch_steps": sum(1 for r in xrecs for st in r["steps"] if st.get("switched")),
+        "sibling_programs": sorted({r["case"][k]["id"] for r in xrecs for k in ("a", "b")}),
+        "source_variants": sorted({r["case"][k]["src"] for r in xrecs for k in ("a", "b")}),
+        "measure": o["notes"].get("xprog_measure"), "operation_alphabet": XOP_DOC,
+    }
     cov = {
-        "evaluations": n_runs, "distinct_nontrivial": len(contexts), "rule": RULE, "samples": samples,
+        "evaluations": n_runs, "distinct_nontrivial": len(contexts), "rule": RULE, "samples": samples, "xprog": xprog_cov,
         "exhaustive": False,
         "exhaustive_note": f"seed dimension: a bounded deterministic sweep of {len(cfg['seeds'])} of 2^128 hash seeds "
                            "(x 2 rayon pool sizes); rayon's internal interleavings are not controlled",
@@ -1248,8 +1764,8 @@ def oracle_c10(obs, rep, tier):
                                               "wall_s")} for b in hb],
         "history_bound_completed": max([b["length"] for b in full if b["alphabet"] == OPS], default=0),
         "history_bound_completed_without_wipe": max([b["length"] for b in full], default=0),
-        "programs": len(o["specs"]) + 1,
-        "program_names": [s["id"] for s in o["specs"]] + [X_PROGRAM_ID],
+        "programs": len(o["specs"]) + 1 + len(xprog_cov["sibling_programs"]),
+        "program_names": [s["id"] for s in o["specs"]] + [X_PROGRAM_ID] + xprog_cov["sibling_programs"],
         "pavexc_runs_total": o["counters"].get("pavexc_runs"), "pavexc_runs_evaluated": n_runs,
         "distinct_cases": len(cases), "seed_sweep_runs": sum(1 for r in o["records"] if r["case"]["kind"] == "sweep"),
         "histories_executed": sum(1 for r in o["records"] if r["case"]["kind"] == "history"),
@@ -1271,6 +1787,11 @@ def oracle_c10(obs, rep, tier):
         "`wipe` deletes the whole cache directory; cargo's own target directories stay (as they would for a user)",
         "the three projects have private cargo target directories except P and Q, which share one",
         "directories created by `--check` (sdk/src) are not counted as modified files",
+        "cross-program histories: pavexc is given cargo metadata computed for the sibling's sources (--precomputed-metadata), as "
+        "everywhere in this engine; the local crate `dep` is a path dependency outside the workspace members so that the warm-cache "
+        "snapshot is valid in every arena; they run with a warm cache unless VERIF_C10_XWIPE=1 (with a cold cache a version bump "
+        "of the local crate makes pavexc's own `cargo rustdoc` fail to resolve the workspace, because the stale generated manifest "
+        "still asks for the old version: pavexc panics in framework_rustdoc.rs instead of regenerating)",
     ]
 
 
@@ -1284,11 +1805,16 @@ def replay_c10(o, rep):
         doc = json.load(f)
     case = doc.get("case", doc).get("c10_case")
     key = doc.get("key")
-    tier = "thorough" if case and case["prog"] not in {s["id"] for s in programs("quick")} else "quick"
+    xcase = bool(case) and case.get("kind") == "xprog"
+    tier = "thorough" if case and not xcase and case["prog"] not in {s["id"] for s in programs("quick")} else "quick"
     found, steps = [], []
     with arena_lock():
         arenas = prepare(tier)
         canon, notes = baseline(arenas, tier)
+        if xcase:
+            # the case carries its two programs: their blueprints are regenerated from it, and so are fresh(A), fresh(B)
+            write_xbps([case["a"], case["b"]])
+            canon.update(xprog_baseline(arenas[0], TIERS[tier]["seeds"][0], [case["a"], case["b"]]))
         if case is None:
             canon_b, notes_b = baseline(arenas, tier)
             for nt in (notes, notes_b):
